@@ -221,8 +221,13 @@ func (v *Verifier) callEffects(c *ssa.CallCommon, e *effects, visiting map[*ssa.
 			if ic := v.ifaceContract(c.Value.Type(), c.Method.Name()); ic != nil && ic.Pure {
 				return
 			}
-			e.all = true
+			// an interface implemented outside /repo (io.Reader, io.Writer, error, ...): ASSUMED (trusted
+			// base, same assumption as the symbolic execution of the call) to write only memory
+			// reachable from its arguments
 			e.allocs = true
+			for _, a := range c.Args {
+				addReachable(a.Type(), e.heaps, map[string]bool{}, 0)
+			}
 			return
 		}
 		for _, f := range impls {
